@@ -13,6 +13,7 @@ import JsonV.Spec.PointerSpec
 import JsonV.Lemmas.PointerEsc
 import JsonV.Lemmas.PointerOps
 import JsonV.Lemmas.PointerValid
+import JsonV.Lemmas.PointerStack
 
 namespace JsonV.Props.C16
 open JsonV JsonV.Model JsonV.Model.Pointer JsonV.Spec.Pointer JsonV.Lemmas.Pointer
@@ -91,5 +92,46 @@ example : isValid [0x2f, 0xff] = false := by decide
 example : contains (render [[0x61]]) (render [[0x61], [0x7e, 0x2f]]) = true :=
   (contains_iff_prefix _ _).2 ⟨[[0x7e, 0x2f]], rfl⟩
 example : lastToken (appendToken [0x2f, 0x61] [0x7e, 0x2f]) = [0x7e, 0x2f] := by decide
+
+/-! ### appendStackPointer -/
+
+/-- Reference token of a path step as `appendStackPointer` writes it (names pass through Go's `range`). -/
+def refToken : Ref → Bytes
+  | .name n => sanitize n
+  | .index i => decimal i
+
+/-- FULL statement (not proved here; validated by Tie B: ops `ptr sp` = `ptr spec` = the running code for
+w ∈ {-1,0,+1} after random token histories): on every state reached by a token history, the pointer assembled
+from the (kind, count) stack and the names stack is the rendering of the declarative path. -/
+def stackptr_spec_full : Prop :=
+  ∀ (hist : List Tok) (w : Int) (s : AState), (w = -1 ∨ w = 0 ∨ w = 1) → AState.init.run hist = some s →
+    ∃ path, pointerOf w hist = some path ∧ appendStackPointer s [] w = some (render (path.map refToken))
+
+/-- PROVED part (where = -1, any stack whose entries all have a current child — every reachable state whose innermost
+container is non-empty): the assembled pointer is `b` followed by the rendering of the member names (as read by `range`)
+and of `Length()-1` for arrays, outermost first; no panic in `Names.getUnquoted`. -/
+theorem stackptr_partial (names : List Bytes) (es : List SEntry) (od : Nat) (b : Bytes)
+    (hlen : ∀ e ∈ es, e.len > 0) (hnames : od + countObj es ≤ names.length) :
+    stackLoop (-1) names es od b = some (b ++ render (refsOf names es od)) :=
+  stackLoop_render names es od b hlen hnames
+
+/-- Consequently `Tokens` of the stack pointer are exactly those names and indices. -/
+theorem stackptr_tokens (s : AState) (hlen : ∀ e ∈ s.stack.reverse.drop 1, e.len > 0)
+    (hnames : countObj (s.stack.reverse.drop 1) ≤ s.names.length) :
+    appendStackPointer s [] (-1) = some (render (refsOf s.names.reverse (s.stack.reverse.drop 1) 0)) ∧
+      tokens (render (refsOf s.names.reverse (s.stack.reverse.drop 1) 0)) =
+        refsOf s.names.reverse (s.stack.reverse.drop 1) 0 := by
+  refine ⟨?_, Lemmas.Pointer.tokens_render _⟩
+  unfold appendStackPointer
+  have := stackLoop_render s.names.reverse (s.stack.reverse.drop 1) 0 [] hlen (by simpa using hnames)
+  simpa using this
+
+/-- The hypotheses are met by the state after `{"a/b":[1,2` : pointer "/a~1b/1". -/
+example : appendStackPointer ⟨[⟨false, 2⟩, ⟨true, 2⟩, ⟨false, 1⟩], [[0x61, 0x2f, 0x62]]⟩ [] (-1) =
+    some [0x2f, 0x61, 0x7e, 0x31, 0x62, 0x2f, 0x31] := by decide
+example : AState.init.run [.beginObj, .str [0x61, 0x2f, 0x62], .beginArr, .scalar, .scalar] =
+    some ⟨[⟨false, 2⟩, ⟨true, 2⟩, ⟨false, 1⟩], [[0x61, 0x2f, 0x62]]⟩ := by decide
+example : pointerOf (-1) [.beginObj, .str [0x61, 0x2f, 0x62], .beginArr, .scalar, .scalar] =
+    some [.name [0x61, 0x2f, 0x62], .index 1] := by decide
 
 end JsonV.Props.C16
